@@ -59,9 +59,17 @@ def run(ctx, progs):
                         if v[0] == 'agg' and v[2] == 'OutOfBounds':
                             facts = b.facts_at(pos)
                             ge = any(r[0] == 'cmp' and r[1] == 'Ge' and unref(r[2])[:2] == ('param', 3) and match(F(P(1), "size"), r[3], {}) for r in facts)
-                            nonempty = any(r[0] == 'bool' and r[2] is False and is_call(unref(r[1]), "slice::is_empty") for r in facts)
+                            from .c18 import buffer_emptiness
+                            nonempty = buffer_emptiness(facts, 2) is False
                             errs.append(ge and nonempty)
                 ctx.ob("R4.1.start_bound", b.key, errs == [True], b.where(), "Err(OutOfBounds) exactly when addr >= self.size (POS >= LEN, non-strict) and only for a non-empty buffer")
+                # a literal Ok(0) reports that nothing was moved: right only where the buffer is known to be empty
+                from .c18 import buffer_emptiness
+                zeros = [(pos, buffer_emptiness(b.facts_at(pos), 2)) for pos, t in b.return_terms()
+                         if deep_strip(t)[0] == 'agg' and deep_strip(t)[2] == 'Ok' and unref(deep_strip(t)[3][0]) == ('const', 0)]
+                ctx.ob("R4.1.zero_only_when_empty", b.key, all(e is True for _p, e in zeros), b.where(),
+                       f"{len(zeros)} literal Ok(0) return(s), each where the buffer is known to be empty: {[e for _p, e in zeros]} — for a non-empty request "
+                       "the count is what the transfer reports")
                 # the transfer itself: buf.{read,write}_volatile(&self.offset(addr)?)
                 meth = "ReadVolatile::read_volatile" if nm == "write" else "WriteVolatile::write_volatile"
                 ok = False
